@@ -67,6 +67,11 @@ class SensorIndex:
     def __init__(self, sid, lo=None, hi=None):
         self.sid, self.lo, self.hi = sid, lo, hi
 
+    def _copy(self, **kw):
+        # np.unique / np.sort of ONE table's stamps: says nothing about the union of several tables (a stamp shared by two
+        # tables is still there twice after the tables are joined)
+        return SensorIndex(self.sid, self.lo, self.hi)
+
     def __ge__(self, o): return Mask([("ge", _z(o))])
     def __gt__(self, o): return Mask([("gt", _z(o))])
     def __le__(self, o): return Mask([("le", _z(o))])
